@@ -28,6 +28,7 @@ type FuncContract struct {
 	HasModifies bool
 	LoopInv     map[int][]*Clause
 	LoopMod     map[int][]*CExpr
+	CallSites   map[string][]*Clause // assertions in the caller's frame before calls of a callee
 	Flags       map[string]string
 	Line        int
 	used        bool
@@ -82,7 +83,7 @@ var (
 
 var clauseKeywords = map[string]bool{
 	"requires": true, "ensures": true, "modifies": true, "loop": true, "inline": true, "pure": true,
-	"trusted": true, "panics": true, "iterator": true, "itercount": true, "iterelem": true, "allocates": true, "counted": true, "nomodcheck": true, "unroll": true, "ghostret": true, "opaque": true,
+	"trusted": true, "panics": true, "iterator": true, "itercount": true, "iterelem": true, "allocates": true, "counted": true, "callsite": true, "nomodcheck": true, "unroll": true, "ghostret": true, "opaque": true,
 }
 var topKeywords = map[string]bool{
 	"func": true, "pred": true, "spec": true, "lemma": true, "callback": true, "ghost": true,
@@ -162,7 +163,7 @@ func loadContractsInto(c *Contracts, path string) (*Contracts, error) {
 			if m == nil {
 				return nil, fail("bad func header")
 			}
-			cur = &FuncContract{Key: m[1], LoopInv: map[int][]*Clause{}, LoopMod: map[int][]*CExpr{}, Flags: map[string]string{}, Line: l.line}
+			cur = &FuncContract{Key: m[1], LoopInv: map[int][]*Clause{}, LoopMod: map[int][]*CExpr{}, CallSites: map[string][]*Clause{}, Flags: map[string]string{}, Line: l.line}
 			if first == "func" {
 				if c.Funcs[cur.Key] != nil {
 					return nil, fail("duplicate contract for %s", cur.Key)
@@ -311,6 +312,33 @@ func loadContractsInto(c *Contracts, path string) (*Contracts, error) {
 				} else {
 					cur.Ensures = append(cur.Ensures, cl)
 				}
+			case "callsite":
+				f := strings.Fields(rest)
+				if len(f) < 3 || f[1] != "requires" {
+					return nil, fail("callsite <Callee> requires <expr>")
+				}
+				callee := f[0]
+				rest = strings.TrimSpace(strings.TrimPrefix(strings.TrimSpace(strings.TrimPrefix(rest, callee)), "requires"))
+				cl := &Clause{Kind: "callsite", Line: l.line}
+				for {
+					if m := reTag.FindStringSubmatch(rest); m != nil {
+						cl.Tags = append(cl.Tags, m[1])
+						rest = rest[len(m[0]):]
+						continue
+					}
+					if m := reLabel.FindStringSubmatch(rest); m != nil {
+						cl.Name = m[1]
+						rest = rest[len(m[0]):]
+						continue
+					}
+					break
+				}
+				e, err := parse(rest)
+				if err != nil {
+					return nil, err
+				}
+				cl.Expr, cl.Src = e, rest
+				cur.CallSites[callee] = append(cur.CallSites[callee], cl)
 			case "modifies":
 				cur.HasModifies = true
 				ms, err := parseModList(rest, parse)
